@@ -31,6 +31,9 @@ func deviationsAt(sc *dscenario, rec sim.Rec) []string {
 	if rec.Class == sim.ClSave {
 		l = append(l, sim.DevNoOK)
 	}
+	if rec.Class == sim.ClRead && (rec.Text == "sh run" || rec.Text == "write term" || rec.Text == "iptables-save") {
+		l = append(l, sim.DevBadConf)
+	}
 	if sc.devType == "ASA" && rec.Class == sim.ClChange && !strings.HasPrefix(rec.Text, "configure terminal") {
 		l = append(l, sim.DevWarnErr, sim.DevInfoErr)
 	}
